@@ -153,7 +153,7 @@ var enumSetterValues = [spec.NumSetters][]string{
 	/* host     */ {"", "h", "h:82", "h:80", "1.2.3.4", "[::1]:0", "a b", "C:", "localhost", "h:65536"},
 	/* hostname */ {"", "x", "x:1", "0x7f.1", "[::2]", "C|"},
 	/* port     */ {"", "0", "80", "443", "65535", "65536", "8x"},
-	/* pathname */ {"", "/", "//x", "/.//y", "C|/z", "a b", "/..", "\\w"},
+	/* pathname */ {"", "/", "//x", "/.//y", "C|/z", "a b", "/..", "\\w", "/a/C:/../x"},
 	/* search   */ {"", "?", "a=b", "a b"},
 	/* hash     */ {"", "#", "f", "a b"},
 }
